@@ -162,12 +162,17 @@ Definition plain_dial (e : denv) : conn :=
   PlainConn (eOwnSCID e) (eRandDCID e 0) 0 (eConfToken e).
 
 Definition maxPN : Z := 2 ^ 62 - 1.
+(** UTransport.dial + doDial, statement by statement: the generator is replaced only when a spec
+    is set (u_transport.go:50-57); UpdateConfig and the Initial packet number seed only when a spec
+    is set (:88-93); the destination connection ID has a pinned length only for a spec with
+    DestConnIDLength > 0 (:131-136); the constructor is chosen by [QUICSpec == nil] (:157).
+    Everything else is shared with Transport.dial / doDial. *)
 Definition u_dial (e : denv) (spec : option (ips * spec_state)) : conn :=
+  let scid := match spec with Some (i, _) => eGenSCID e (iSrcLen i) | None => eOwnSCID e end in
+  let token := match spec with Some (i, _) => iToken i || eConfToken e | None => eConfToken e end in
+  let pn := match spec with Some (i, _) => if maxPN <? iInitPN i then 0 else iInitPN i | None => 0 end in
+  let dcid := eRandDCID e (match spec with Some (i, _) => if 0 <? iDstLen i then iDstLen i else 0 | None => 0 end) in
   match spec with
-  | None => PlainConn (eOwnSCID e) (eRandDCID e 0) 0 (eConfToken e)
-  | Some (i, st) =>
-    SpecConn (eGenSCID e (iSrcLen i))
-             (eRandDCID e (if 0 <? iDstLen i then iDstLen i else 0))
-             (if maxPN <? iInitPN i then 0 else iInitPN i)
-             (iToken i || eConfToken e) st
+  | None => PlainConn scid dcid pn token
+  | Some (_, st) => SpecConn scid dcid pn token st
   end.
